@@ -10,6 +10,7 @@ import (
 	"os"
 	"reflect"
 	"strconv"
+	"strings"
 	"time"
 
 	"github.com/gogo/protobuf/jsonpb"
@@ -300,3 +301,14 @@ func DeepEq(a, b interface{}) bool {
 	return reflect.DeepEqual(a, b)
 }
 func Trace(label string, v interface{}) {}
+func StrContains(a, b string) bool { return strings.Contains(a, b) }
+
+// NextClock hands the recorded clock readings (environment values of the model) to the replay clock stub.
+func NextClock() (int64, bool) {
+	if Current != nil && envPos < len(Current.EnvInts) {
+		v, _ := strconv.ParseInt(Current.EnvInts[envPos], 10, 64)
+		envPos++
+		return v, true
+	}
+	return 0, false
+}
